@@ -113,4 +113,10 @@ func cloneHeader(in http.Header) (out http.Header)
   invariant[2] tokens-so-far: forall k string :: (k in out) <==> ((k in in) && !(exists i, j int :: ((0 <= i && i < idx$1 && 0 <= j && j < splitCount(in["Connection"][i], ",")) || (i == idx$1 && 0 <= j && j < idx$2)) && connToken(in, i, j) != "" && canon(connToken(in, i, j)) == k))
   invariant[3] out != nil && fresh(out) && (forall k string :: k in out ==> (k in in) && out[k] == in[k])
   invariant[3] hop-so-far: forall k string :: (k in out) <==> ((k in in) && !namedByConnection(in, k) && !(exists n int :: 0 <= n && n < idx$3 && k == canon(hopHeaders[n])))
+
+// ---- C13: wiring of resilience policies named by a pool ----
+func (sp *ServerPool) InjectResiliencePolicy(policies map[string]resilience.Policy)
+  flag frame=unchecked
+  requires sp != nil && sp.spec != nil
+  requires policies-are-objects: forall k string :: k in policies ==> ifaceVal(policies[k]) != 0
 @*/
